@@ -99,7 +99,7 @@ Lemma mv_inv_meq A I B : mv_inv A I B ->
   meq K (mmul K B (mrows K A I)) A /\ meq K (mrows K B I) (mid K (mc A)).
 Proof.
   intros (HL & Hr & Hc & _ & HV & HP & HI). split.
-  - repeat split; simpl; auto. intros a c Ha Hc'. rewrite mget_mk by (simpl; lia).
+  - repeat split; simpl; auto. intros a c Ha Hc'. unfold mmul. rewrite mget_mk by (simpl; lia).
     rewrite Hc. rewrite <- (HP a c) by lia. apply bsum_ext; intros l Hl.
     unfold mrows. rewrite mget_mk by lia. reflexivity.
   - repeat split; simpl; auto. intros k l Hk Hl. unfold mrows. rewrite mget_mk by lia.
@@ -202,33 +202,59 @@ Proof.
   intros H. apply Forall_forall. intros x Hx. apply (In_nth _ _ O) in Hx as (k & Hk & <-). auto.
 Qed.
 
-Lemma maxvol_spec (lu_init : lu_t K) A e k :
+Lemma maxvol_spec (lu_init : @lu_t T) A e k :
   (0 < mc A)%nat -> (mc A < mr A)%nat -> 0 <=! e -> lu_contract A (lu_init A) ->
   exists I B conv, maxvol_full K lu_init A e k = Ok (I, B, conv) /\ maxvol K lu_init A e k = Ok (I, B) /\
                    maxvol_post A e I B conv.
 Proof.
   intros Hr Hn He (I0 & B0 & E0 & HInv). unfold maxvol, maxvol_full.
   destruct (Nat.leb_spec (mr A) (mc A)); [lia|]. rewrite E0. cbn [rbind fst snd rmap].
-  pose proof (maxvol_loop_spec A e Hr Hn He k I0 B0 HInv) as H.
-  destruct (maxvol_loop K e k I0 B0) as ((I', B'), conv). destruct H as (HI & HC).
-  exists I', B', conv. repeat split; auto; try (apply mv_inv_meq in HI as HM; tauto);
-    destruct HI as (HL & _ & _ & HND & HV & _); auto.
-  - apply forall_nth_valid. rewrite HL. exact HV.
-  - apply mv_inv_meq in HI as HM. apply HM.
-  - apply mv_inv_meq in HI as HM. apply HM.
+  pose proof (maxvol_loop_spec A e Hr Hn He k I0 B0 HInv) as HS.
+  destruct (maxvol_loop K e k I0 B0) as ((I', B'), conv). destruct HS as (HI & HC).
+  pose proof (mv_inv_meq A I' B' HI) as (HM1 & HM2).
+  destruct HI as (HL & _ & _ & HND & HV & _).
+  exists I', B', conv. split; [reflexivity|]. split; [reflexivity|].
+  unfold maxvol_post. repeat split; auto; try apply HM1; try apply HM2.
+  apply forall_nth_valid. rewrite HL. exact HV.
 Qed.
 
 (* wide or square input is rejected, whatever the initialisation does *)
-Lemma maxvol_rejects (lu_init : lu_t K) A e k : (mr A <= mc A)%nat -> maxvol K lu_init A e k = Err ValueError.
+Lemma maxvol_rejects (lu_init : @lu_t T) A e k : (mr A <= mc A)%nat -> maxvol K lu_init A e k = Err ValueError.
 Proof.
   intros H. unfold maxvol, maxvol_full. destruct (Nat.leb_spec (mr A) (mc A)); [reflexivity|lia].
 Qed.
 
 (* the iteration limit: after k swaps without a passed test the flag is false; with limit 0 the
    initialisation is returned unchanged *)
-Lemma maxvol_limit0 (lu_init : lu_t K) A e I0 B0 : (mc A < mr A)%nat -> lu_init A = Ok (I0, B0) ->
+Lemma maxvol_limit0 (lu_init : @lu_t T) A e I0 B0 : (mc A < mr A)%nat -> lu_init A = Ok (I0, B0) ->
   maxvol K lu_init A e 0 = Ok (I0, B0).
 Proof.
   intros H E. unfold maxvol, maxvol_full. destruct (Nat.leb_spec (mr A) (mc A)); [lia|]. now rewrite E.
 Qed.
 End MaxvolP.
+
+(* ---------- the laws hold for the exact carrier of the correspondence runs ---------- *)
+From Coq Require Import QArith Qcanon.
+Lemma Qc_leb_le a b : Qc_leb a b = true <-> (a <= b)%Qc.
+Proof.
+  unfold Qc_leb. rewrite Qcle_alt. destruct (a ?= b)%Qc; split; intros; try congruence; auto.
+Qed.
+Lemma Qc_ltb_lt a b : Qc_ltb a b = true <-> (a < b)%Qc.
+Proof. unfold Qc_ltb. rewrite Qclt_alt. destruct (a ?= b)%Qc; split; intros; try congruence; auto. Qed.
+Lemma ordfield_Qc : ordfield OQc.
+Proof.
+  constructor; cbn [OQc o0 o1 oadd omul osub oopp odiv oabs oleb oltb].
+  - exact Qcrt.
+  - intros a b. unfold Qcdiv. ring.
+  - intros b Hb. unfold Qcdiv. rewrite Qcmult_1_l. apply Qcmult_inv_r. exact Hb.
+  - intros a b. unfold Qc_ltb, Qc_leb. unfold Qccompare. rewrite <- (Qcompare_antisym (this a) (this b)).
+    destruct (this a ?= this b)%Q; reflexivity.
+  - intros a b. rewrite !Qc_leb_le. destruct (Qclt_le_dec a b) as [H|H]; [left; now apply Qclt_le_weak|right; auto].
+  - intros a b c. rewrite !Qc_leb_le. apply Qcle_trans.
+  - intros a b. rewrite !Qc_leb_le. apply Qcle_antisym.
+  - intros a b c. rewrite !Qc_leb_le. intros H. apply Qcplus_le_compat; [exact H|apply Qcle_refl].
+  - intros a b. rewrite !Qc_leb_le. intros Ha Hb.
+    replace (Q2Qc 0) with (Q2Qc 0 * b)%Qc by ring. apply Qcmult_le_compat_r; auto.
+  - intros H. discriminate H.
+  - intros a. reflexivity.
+Qed.
